@@ -170,7 +170,7 @@ def check_case(case):
     return {"dis": dis, "nontrivial": kind in ("normal", "scaled", "negative"), "class": kind, "checked": ["Endpoints", "Centre", "Extent", "Point", "ReportedEllipse"]}
 
 
-UNITS = [(1, 1000), (12345, 1), (100000, 1), (37, 100), (1, 64)]
+UNITS = [(1, 1000), (12345, 1), (100000, 1), (37, 100), (1, 64), (1, 4000)]      # radius 5 -> 1.25e-3: the small end of the range
 
 
 def scaled(case, u):
